@@ -44,6 +44,10 @@ type c11Input struct {
 	// (CLI cases) the interface has a `configs` list: this structname in the first entry (the case's own), another in
 	// a second entry; every entry is rendered with the variables of its own configuration
 	EntryStruct string `json:"entryStruct,omitempty"`
+	// CLI cases: how the program is told where the config file (ConfigFile) is: search | flag | env | env+flag (the
+	// flag names another file: the environment wins) | key (the file itself carries a `config:` key naming another
+	// file: ConfigDir is the directory of the file in use)
+	Locate string `json:"locate,omitempty"`
 }
 
 type c11 struct{}
@@ -155,6 +159,13 @@ func genC11Bind(r *rand.Rand, idx int) c11Input {
 	in.Values["pkgname"] = pick(r, []string{"{{.SrcPackageName}}_x", "p_{{ .InterfaceName | lower }}", "{{ base .InterfaceDir }}"})
 	in.Values["structname"] = pick(r, []string{"{{.Mock}}{{.InterfaceName}}", "S_{{ base .InterfaceFile }}_{{ .InterfaceDirRelative | replaceAll \"/\" \"_\" }}", "S_{{ replaceAll \"/\" \"_\" .SrcPackagePath }}"})
 	in.Values["template-schema"] = "none.schema.json"
+	in.Locate = []string{"search", "flag", "env", "env+flag", "key", "search"}[idx%6]
+	if in.Locate != "search" {
+		in.Values["dir"] = "{{.ConfigDir}}/out/{{.SrcPackageName}}"
+		if in.Locate != "key" {
+			in.ConfigFile = mod + "/conf/my.yml"
+		}
+	}
 	if idx%3 == 1 {
 		in.EntryStruct = "Spy" + pr.iface
 		in.Values["structname"] = "Stub{{.InterfaceName}}"
@@ -183,14 +194,29 @@ func c11RunCLI(c *Ctx, in *c11Input, realCwd string) (res c11Result, panicked st
 	if in.EntryStruct != "" {
 		fmt.Fprintf(&cfg, "        configs:\n          - structname: %q\n          - structname: %q\n", in.Values["structname"], in.EntryStruct)
 	}
-	files[".mockery.yml"] = cfg.String()
+	cfgRel, _ := filepath.Rel(mod, in.ConfigFile)
+	files[cfgRel] = cfg.String()
+	var args, env []string
+	switch in.Locate {
+	case "flag":
+		args = []string{"--config", in.ConfigFile}
+	case "env":
+		env = []string{"MOCKERY_CONFIG=" + in.ConfigFile}
+	case "env+flag":
+		files["decoy/other.yml"] = cfg.String()
+		env = []string{"MOCKERY_CONFIG=" + in.ConfigFile}
+		args = []string{"--config", filepath.Join(mod, "decoy/other.yml")}
+	case "key":
+		files["decoy/other.yml"] = cfg.String()
+		files[cfgRel] = fmt.Sprintf("config: %q\n", filepath.Join(mod, "decoy/other.yml")) + cfg.String()
+	}
 	if err := writeFiles(mod, files); err != nil {
 		res.err = err
 		return
 	}
 	defer os.RemoveAll(mod)
 	before := treeHashes(mod)
-	r := c.runMockery(mod, nil, nil)
+	r := c.runMockery(mod, args, env)
 	if r.Panicked {
 		return res, lastLines(r.Stderr, 4), false
 	}
